@@ -3,7 +3,6 @@ package main
 // Symbolic executor / VC generator over go/ssa (NaiveForm).
 
 import (
-	"os"
 	"bytes"
 	"fmt"
 	"go/ast"
@@ -13,6 +12,7 @@ import (
 	"go/types"
 	"io"
 	"math/big"
+	"os"
 	"sort"
 	"strings"
 
